@@ -6,6 +6,7 @@ PEP 440 / plain-string ordering of `bumpver test` results incl. chains of 1,000 
 """
 import datetime as dt
 import random
+import re
 
 from packaging.version import InvalidVersion, Version
 
@@ -35,7 +36,8 @@ SPEC = dict(
     assumptions=["bvmon/ref_v1.py renders/reads the legacy parts from their documented composites",
                  "{iso_week}/{us_week} and the zero-padded {MM}/{PPP}/{BBB} families are outside the statement"],
     required=["roundtrips", "test_accepted", "chain_steps", "pycalver_string_order_checks", "updates_ok",
-              "dispatch_checked", "short_roundtrips", "legacy_pin_date_cases", "follow_up_updates", "show_environ_checked"],
+              "dispatch_checked", "short_roundtrips", "legacy_pin_date_cases", "follow_up_updates", "show_environ_checked",
+              "legacy_both_placeholders_in_one_pattern"],
     anchors=[("v1version", "parse_version_info"), ("v1version", "format_version"), ("v1version", "incr"),
              ("cli", "incr_dispatch"), ("v1patterns", "_compile_pattern_re")],
 )
@@ -259,6 +261,7 @@ def run_update(ctx, case, R):
     if ref_v1.parse(ast, old) is None:
         raise harness.Skip("start-not-readable-by-model")
     has_pep = p in SIX
+    both = False
     lines = ["intro text", f'__version__ = "{old}"', "middle"]
     pats = ['__version__ = "{version}"']
     if has_pep:
@@ -266,6 +269,11 @@ def run_update(ctx, case, R):
         pep_text = ref_v1.render(ref_v1.parse_pattern(PEP_FORM[p]), st)
         lines.append(f"pip install pkg=={pep_text} ;")
         pats.append("pkg=={pep440_version} ;")
+        if R.random() < 0.4:
+            # both placeholders in ONE pattern (the usual README line): the same legacy parts occur twice
+            lines.append(f"Release {old} (pip: {pep_text}) .")
+            pats.append("Release {version} (pip: {pep440_version}) .")
+            both = True
     cfg = (f'[bumpver]\ncurrent_version = "{old}"\nversion_pattern = "{p}"\n\n[bumpver.file_patterns]\n'
            f'"bumpver.toml" = [\'current_version = "{{version}}"\']\n"a.txt" = [\n'
            + "".join(f"    {updates_toml(x)},\n" for x in pats) + "]\n")
@@ -302,6 +310,17 @@ def run_update(ctx, case, R):
         new = res.record_value("New Version: ")
         gt_oracle(ctx, p, old, new, case)
         ctx.counters["updates_ok"] += 1
+        if both:
+            ctx.counters["legacy_both_placeholders_in_one_pattern"] += 1
+            ln = harness.snapshot(dpath)["a.txt"].decode().split("\n")[4]
+            m = re.fullmatch(r"Release (.+?) \(pip: (.+?)\) \.", ln)
+            try:
+                ok = m is not None and m.group(1) == new and Version(m.group(2)) == Version(new)
+            except InvalidVersion:
+                ok = False
+            if not ok:
+                ctx.violation("other:legacy_rewrite_wrong", f"{p!r}: line with both placeholders reads {ln!r} after the "
+                              f"update to {new!r}", case=case)
         after = harness.snapshot(dpath)
         a_txt = after["a.txt"].decode()
         want = ["intro text", f'__version__ = "{new}"', "middle"]
